@@ -352,6 +352,7 @@ func (db *DB) Close() {
 	})
 	db.tasks.Wait()
 	db.log.Debug("Closed")
+	verifClosed(db)
 }
 
 func (db *DB) registerAliases(aliasesFile string) {
